@@ -210,6 +210,19 @@ def gen(maxn, nkind):
         'return step(s, ms, lambda: s.__delitem__(0), lambda: ms.__delitem__(0), ms0) and observe(g, m)',
         'insert then delete / replace / operate on a slice', timeout=120,
         split=[('k%do%d' % (c, o), 'rk == %d and op2 == %d' % (c, o)) for c in range(nkind) for o in range(3)])
+    add('derived', 'sk: int, op: int, rk: int, who: bool', '0 <= sk <= 4 and 0 <= op <= 3 and 0 <= rk < NKIND',
+        'sk = conc(sk, 0, 4)\n'
+        'if sk < 4:\n    sl = [slice(None), slice(0, 1), slice(1, None), slice(None, None, -1)][sk]\n    s = g[sl]; ms = m[sl]\n'
+        'else:\n    s = g.filter("a"); ms = list(m)\n'
+        'if not (observe(s, ms) and observe(g, m)):\n    return False\n'
+        'tgt, tm, oth, om = (s, ms, g, m) if who else (g, m, s, ms)\n'
+        'tm0 = list(tm); row = mkrow(rk, 7); op = conc(op, 0, 3)\n'
+        'if op == 0:\n    ok = step(tgt, tm, lambda: tgt.append(row), lambda: tm.append(row), tm0)\n'
+        'elif op == 1:\n    ok = step(tgt, tm, lambda: tgt.__delitem__(0), lambda: tm.__delitem__(0), tm0)\n'
+        'elif op == 2:\n    ok = step(tgt, tm, lambda: tgt.__setitem__(0, row), lambda: tm.__setitem__(0, row), tm0)\n'
+        'else:\n    ok = step(tgt, tm, lambda: tgt.insert(0, row), lambda: tm.insert(0, row), tm0)\n'
+        'return ok and observe(oth, om)',
+        'a derived grid (slice / filter result) and its parent stay independent lists with their own id lookup', timeout=120)
     return H
 
 
@@ -218,7 +231,7 @@ def run_obs(chk, obs):
     maxn, nkind = (2, 4) if quick else (3, 5)
     chk.bounds = dict(rows_in_pre_state='0..%d' % maxn, row_kinds=['no id', "id 'x'", 'id 1 (int)', "id Ref('x')", "id '1'"][:nkind],
                       indices='-(max+1)..(max+1)', index_state='never built (fresh grid / slice) or built',
-                      history='one operation from an arbitrary state; plus one two-step family (insert then delete/replace/slice-op)')
+                      history='one operation from an arbitrary state; two-step family (insert then delete/replace/slice-op); derived-grid family (slice or filter result, then mutate parent or derived grid, observe both)')
     chk.assumptions = ['pre-state: rows are placed directly in Grid._row and the id index is None or reindex()ed - the states reachable by histories of inserts/slices',
                        'row dicts are concrete objects chosen by symbolic selectors (which kind of id each row has); cell values are concrete and distinct',
                        'with duplicate id strings any current row with that id string is accepted as "the" row',
